@@ -626,9 +626,8 @@ func (c *ctx) recvFields(e ast.Node) []string {
 						add(f)
 					} else if last != nil && last.embedded {
 						add(last.name)
-					} else if len(ch) == 1 {
-						add("<" + sel.Sel.Name + "()>")
 					}
+					// (a method of the receiver itself that is not a plain accessor: unresolved)
 					for _, a := range x.Args {
 						ast.Inspect(a, visit)
 					}
@@ -1841,6 +1840,26 @@ func hintString(p *pkg, e ast.Expr, f *ast.File) string {
 		return ""
 	}
 	s, _ := strconv.Unquote(bl.Value)
+	return normHint(s)
+}
+
+// normHint renders the version the way hint.Hint.String() does (semver: v2 -> v2.0.0), which is what the
+// "_hint" member of real encoded objects carries.
+func normHint(s string) string {
+	i := strings.LastIndex(s, "-v")
+	if i < 0 {
+		return s
+	}
+	ver := s[i+2:]
+	if strings.ContainsAny(ver, "-+") {
+		return s
+	}
+	switch strings.Count(ver, ".") {
+	case 0:
+		return s + ".0.0"
+	case 1:
+		return s + ".0"
+	}
 	return s
 }
 
